@@ -118,21 +118,32 @@ def rule_ref(ctx):
     p = ctx.project
     comp = p.func('formulas/excel/__init__.py', 'ExcelModel.complete')
     ex = Exceptions(ctx)
-    tries = [n for n in own_nodes(comp) if isinstance(n, ast.Try)]
+    # complete() itself and the private helpers it delegates to; leaving a
+    # helper early (`return`) is what `continue` is in the loop itself
+    from ..util import with_helpers
+    scope = with_helpers(ctx, comp)
+    tries = [(g, n) for g in scope for n in own_nodes(g)
+             if isinstance(n, ast.Try)]
+
+    def goes_on(g, h):
+        return any(isinstance(s, ast.Continue) for s in h.body) or (
+            g is not comp and h.body and isinstance(h.body[-1], ast.Return))
+
     # (1) add_book/add_sheet inside try with broad handler
-    io_calls = [n for n in own_nodes(comp) if isinstance(n, ast.Call)
+    io_calls = [(g, n) for g in scope for n in own_nodes(g)
+                if isinstance(n, ast.Call)
                 and call_name(n) in ('add_book', 'add_sheet')]
     if not io_calls:
         raise AnalysisError('ExcelModel.complete: no add_book/add_sheet call')
-    for c in io_calls:
+    for g, c in io_calls:
         rr.instances += 1
-        enclosing = [t for t in tries if any(x is c for s in t.body
-                                             for x in ast.walk(s))]
+        enclosing = [(g2, t) for g2, t in tries if any(
+            x is c for s in t.body for x in ast.walk(s))]
         ok = False
         why = 'not inside a try block'
-        for t in enclosing:
+        for g2, t in enclosing:
             for h in t.handlers:
-                hc = ex.handler_classes(comp, h)
+                hc = ex.handler_classes(g2, h)
                 broad = any(k.name in ('Exception', 'BaseException') for k in hc)
                 if not broad:
                     why = 'handler only catches %s' % ', '.join(
@@ -140,7 +151,7 @@ def rule_ref(ctx):
                     continue
                 txt = ' '.join(norm_src(s) for s in h.body)
                 reg = '#REF!' in txt and ('.add(' in txt)
-                cont = any(isinstance(s, ast.Continue) for s in h.body)
+                cont = goes_on(g2, h)
                 if reg and cont:
                     ok = True
                 else:
@@ -159,15 +170,14 @@ def rule_ref(ctx):
     # (2) unparsable id -> Ref '#REF!'
     rr.instances += 1
     ok = False
-    for t in tries:
+    for g2, t in tries:
         if any(isinstance(x, ast.Call) and call_name(x) == 'get_range'
                for s in t.body for x in ast.walk(s)):
             for h in t.handlers:
-                hc = ex.handler_classes(comp, h)
+                hc = ex.handler_classes(g2, h)
                 txt = ' '.join(norm_src(s) for s in h.body)
                 if any(k.name in ('InvalidRangeName', 'ValueError', 'Exception')
-                       for k in hc) and '#REF!' in txt and any(
-                        isinstance(s, ast.Continue) for s in h.body):
+                       for k in hc) and '#REF!' in txt and goes_on(g2, h):
                     ok = True
     if ok:
         rr.ok('an id that is not a range registers a #REF! reference and '
@@ -298,12 +308,30 @@ def rule_local(ctx):
         raise AnalysisError('Cell.compile: `self.builder.compile(...)` / '
                             '`self.builder = None` not recognised')
     bound = False
+    # stores `self.func = E` where E is built (through locals) from a value
+    # that self.builder.compile(...) produces on some path - directly, or
+    # after a look-up in a cache of such values
+    from .common import _defs_of
+    compiled_stores = []
     for t, v, st in assign_pairs(f):
         if isinstance(t, ast.Attribute) and t.attr == 'func' and isinstance(
                 t.value, ast.Name) and t.value.id == sn:
             bound = True
+            seen, work, hit = set(), [v], False
+            while work and not hit:
+                e = work.pop()
+                if any(c is x for c in comp for x in ast.walk(e)):
+                    hit = True
+                    break
+                for x in ast.walk(e):
+                    if isinstance(x, ast.Name) and x.id not in seen:
+                        seen.add(x.id)
+                        work.extend(_defs_of(f, x.id))
+            if hit:
+                compiled_stores.append(st)
     rr.instances += 1
-    cnodes = [cfg.node_of(c) for c in comp]
+    cnodes = [cfg.node_of(c) for c in comp] + [
+        cfg.node_of(st) for st in compiled_stores]
     bad = [d for d in drops if not any(
         cn is not None and cfg.dominates(cn, cfg.node_of(d), dom)
         for cn in cnodes)]
